@@ -243,7 +243,7 @@ func driveIter(d *pebble.DB, m *hx.Model, ic IterCfg, scr [][]IOp, st *driveStat
 				st.midSeek++
 			}
 			for _, fs := range full {
-				if hx.Cmp(fs.Start, want.Key) <= 0 && hx.Cmp(want.Key, fs.End) < 0 && (fs.Start != want.Start || fs.End != want.End) {
+				if kcmp(fs.Start, want.Key) <= 0 && kcmp(want.Key, fs.End) < 0 && (fs.Start != want.Start || fs.End != want.End) {
 					st.clipped++
 				}
 			}
